@@ -13,8 +13,10 @@ import (
 	"codeberg.org/TauCeti/mangle-go/factstore"
 	"codeberg.org/TauCeti/mangle-go/functional"
 	"codeberg.org/TauCeti/mangle-go/provenance"
+	"codeberg.org/TauCeti/mangle-go/rewrite"
 	"codeberg.org/TauCeti/mangle-go/unionfind"
 
+	"verifmc/gen"
 	"verifmc/mg"
 	"verifmc/oracle"
 	"verifmc/rt"
@@ -209,9 +211,14 @@ func (c *c15Ctx) validate(n *provenance.ProofNode, ancestors map[string]bool, re
 		}
 		content = "derived:" + n.Rule.String() + ":" + fk + "[" + strings.Join(subContents, ";") + "]"
 	default:
-		// let / do nodes (recorded mode with transforms): only check fact is stored
+		// let / do nodes (recorded mode with transforms)
 		if !c.store.Contains(n.Fact) {
 			return "", "transform node for a fact that is not in the store: " + n.Fact.String()
+		}
+		if n.Kind == provenance.KindDoAggregate && !n.Partial {
+			if prob := c.checkDoAggregate(n); prob != "" {
+				return "", prob
+			}
 		}
 		var subs []string
 		for _, p := range n.Premises {
@@ -271,8 +278,112 @@ func c15(r *rt.Run) {
 			c15Case(r, src, ps.pool.EDBs[ei], (i+ei)%4 == 0)
 		}
 	})
+	// programs with do-transforms (recorded mode): every aggregating rule of pool A over count and sum, single-atom bodies
+	// (incl. a repeated variable), multi-atom bodies and bodies over the closure t
+	ar := gen.AggRules([]string{"fn:count()", "fn:sum(V)"})
+	aEDBs := gen.AggEDBs(3, [][]int{{}, {1, 2}})
+	rt.ForRange(len(ar), func(i int) {
+		src := gen.AggDecls
+		if ar[i].UsesT {
+			src += gen.AggTC
+		}
+		src += ar[i].Text + "\n"
+		for ei, e := range aEDBs {
+			if r.Thorough() || (i+ei)%3 == 0 {
+				c15Case(r, src, e, false)
+			}
+		}
+	})
 	r.Finish("every <=k-rule program of pools G,R,N,M,L,S,B x pool EDBs (quick: every 2nd-5th EDB); after evaluation EVERY stored fact is a goal for provenance.Explain (MaxProofs 1 and 3; MaxDepth default and, for a quarter of the cases, 2) and for BuildFromRecording; " +
-		"each proof is validated by an independent checker; recorder on/off store equality; identifier/content bijection per run; non-trivial = cases with at least one derived fact")
+		"each proof is validated by an independent checker (aggregate nodes of do-transforms: the inputs must be exactly the stored instances of the body atom in the node's group); recorder on/off store equality; identifier/content bijection per run; non-trivial = cases with at least one derived fact")
+}
+
+// checkDoAggregate: the premises of an aggregate node must be exactly the stored facts that are instances of the
+// rule's body atom (constants and repeated variables respected) and agree with the node's group key on the
+// group-by variables; count and sum in the head must be those of these facts.
+func (c *c15Ctx) checkDoAggregate(n *provenance.ProofNode) string {
+	if n.Rule == nil || n.Rule.Transform == nil || len(n.Rule.Premises) != 1 || len(n.Rule.Transform.Statements) == 0 {
+		return ""
+	}
+	body, ok := n.Rule.Premises[0].(ast.Atom)
+	if !ok || body.Predicate.IsBuiltin() {
+		return ""
+	}
+	gb := n.Rule.Transform.Statements[0].Fn
+	if gb.Function.Symbol != "fn:group_by" {
+		return ""
+	}
+	match := func(f ast.Atom) (map[string]ast.Constant, bool) {
+		if f.Predicate != body.Predicate || len(f.Args) != len(body.Args) {
+			return nil, false
+		}
+		env := map[string]ast.Constant{}
+		for i, t := range body.Args {
+			fc, ok := f.Args[i].(ast.Constant)
+			if !ok {
+				return nil, false
+			}
+			switch x := t.(type) {
+			case ast.Constant:
+				if oracle.Key(x) != oracle.Key(fc) {
+					return nil, false
+				}
+			case ast.Variable:
+				if x.Symbol == "_" {
+					continue
+				}
+				if prev, bound := env[x.Symbol]; bound && oracle.Key(prev) != oracle.Key(fc) {
+					return nil, false
+				}
+				env[x.Symbol] = fc
+			default:
+				return nil, false
+			}
+		}
+		return env, true
+	}
+	inGroup := func(env map[string]ast.Constant) bool {
+		if len(gb.Args) != len(n.GroupKey) {
+			return false
+		}
+		for i, a := range gb.Args {
+			v, ok := a.(ast.Variable)
+			if !ok {
+				return false
+			}
+			val, bound := env[v.Symbol]
+			if !bound || oracle.Key(val) != oracle.Key(n.GroupKey[i]) {
+				return false
+			}
+		}
+		return true
+	}
+	want := map[string]bool{}
+	c.store.GetFacts(ast.NewQuery(body.Predicate), func(f ast.Atom) error {
+		if env, ok := match(f); ok && inGroup(env) {
+			k, _ := oracle.AtomKeyOf(f)
+			want[k] = true
+		}
+		return nil
+	})
+	got := map[string]bool{}
+	for _, p := range n.Premises {
+		env, ok := match(p.Fact)
+		if !ok {
+			return fmt.Sprintf("aggregate node for %v: input fact %v is not an instance of the body literal %v", n.Fact, p.Fact, body)
+		}
+		if !inGroup(env) {
+			return fmt.Sprintf("aggregate node for %v: input fact %v does not belong to the group with key %v", n.Fact, p.Fact, n.GroupKey)
+		}
+		k, _ := oracle.AtomKeyOf(p.Fact)
+		got[k] = true
+	}
+	for k := range want {
+		if !got[k] {
+			return fmt.Sprintf("aggregate node for %v: the stored fact %s belongs to the group but is not among the inputs", n.Fact, k)
+		}
+	}
+	return ""
 }
 
 func c15Case(r *rt.Run, src string, edbText []string, deep bool) {
@@ -336,6 +447,11 @@ func c15Case(r *rt.Run, src string, edbText []string, deep bool) {
 	}
 	ruleText := map[string]bool{}
 	for _, rule := range pi.Rules {
+		ruleText[rule.String()] = true
+	}
+	// evaluation splits a multi-premise aggregating rule into an internal relation and an aggregating rule over it;
+	// proofs recorded during evaluation refer to these clauses, which are accepted as clauses of the program
+	for _, rule := range rewrite.Rewrite(analysis.Program{EdbPredicates: pi.EdbPredicates, IdbPredicates: pi.IdbPredicates, Rules: pi.Rules}).Rules {
 		ruleText[rule.String()] = true
 	}
 	ctx := &c15Ctx{pi, store, base, ruleText, map[string]string{}, map[string]string{}}
